@@ -81,10 +81,10 @@ PROPS = {
         tlaps=[('TlvCursor_proofs', ['TlvCursor'])],
         gens=dict(
             quick=V1_QUICK + g('stream', v2good=60, v2corrupt=60, v2ctrl=300, v2len=120, mixed=60) + TLV_QUICK
-            + g('stream', bigtrail=3, huge=2, pipe=20) + g('builder', bseq=60, rebuild=30, bwire=20) + g('writer', wvals=60, wints=1, wbig=1, wpersist=10, wraw=6) + g('format', fmtshapes=60, fmtrand=60, fmtknown=80)
+            + g('stream', bigtrail=3, huge=2, pipe=20) + g('builder', bseq=60, rebuild=30, bwire=20) + g('writer', wvals=60, wints=1, wbig=1, wpersist=10, wraw=6, wcustom=15) + g('format', fmtshapes=60, fmtrand=60, fmtknown=80)
             + g('convert', cvrand=66),
             thorough=V1_THOROUGH + V2_THOROUGH + TLV_THOROUGH + g('builder', bseq=3000, rebuild=1000, bwire=500)
-            + g('writer', wvals=3000, wints=20, wtlv=2) + g('format', fmtshapes=6561, fmtrand=5000) + g('convert', cvrand=2200)),
+            + g('writer', wvals=3000, wints=20, wtlv=2, wcustom=300) + g('format', fmtshapes=6561, fmtrand=5000) + g('convert', cvrand=2200)),
         models=[MC_V1, MC_V2, MC_TLV],
         profiles=['debug', 'release'],
         rule='every event of every family, in a build with overflow checks and debug assertions and in a build without; '
@@ -200,7 +200,7 @@ PROPS = {
         rule='constructor / conversion calls with pairwise distinct arguments; every event is non-trivial',
     ),
     'C20': dict(
-        gens=dict(quick=g('writer', wvals=200, wints=2, wtlv=1, wbig=1, wpersist=30, wlimit=10, wraw=10, whuge=3), thorough=g('writer', wvals=8000, wints=60, wtlv=4, wbig=1, wpersist=900, wlimit=300, wraw=300, whuge=12)),
+        gens=dict(quick=g('writer', wvals=200, wints=2, wtlv=1, wbig=1, wpersist=30, wlimit=10, wraw=10, wcustom=30, whuge=3), thorough=g('writer', wvals=8000, wints=60, wtlv=4, wbig=1, wpersist=900, wlimit=300, wraw=300, wcustom=600, whuge=12)),
         models=[MC_WRITER],
         rule='values of every WriteToHeader type written into empty and pre-filled writers; non-trivial = writer at '
              'most 4096 bytes long (well below its limit); distinct = distinct (prefill, value)',
